@@ -20,8 +20,8 @@ def main(sid, rnd, first_miss=None):
                 what_was_run="tools/eval_seeded.sh (fresh worktree of /repo HEAD + patch.diff; demo.py on /repo and on the patched tree; pytest tests/unit with the 3 known failures "
                              "deselected on the patched tree; ./check <C..> --tier quick with VERIF_REPO=<patched tree>); tools/recheck_seeded.sh after strengthening",
                 checks=checks, first_run_missed_by=first_miss or [],
-                source="independent sub-agent (third round: told the sites of rounds 1 and 2; asked for cooperating edits, timing/order dependence or rarely exercised configuration space)")
+                source=f"independent sub-agent (round {rnd}: told the sites of all earlier rounds; asked for cooperating edits, timing/order dependence or rarely exercised configuration space)")
     if not meta["breaks"]: meta["agent_meta"] = am
     json.dump(meta, open(f"{d}/meta.json", "w"), indent=1)
 if __name__ == "__main__":
-    main(sys.argv[1], 3, sys.argv[2:])
+    main(sys.argv[1], int(sys.argv[1].split('_r')[1]) if '_r' in sys.argv[1] else 1, sys.argv[2:])
